@@ -54,6 +54,8 @@ bitflags::bitflags! {
 
 pub struct MqttShared {
     io: IoRef,
+    /// sink is closed, `io.is_closed()` lags behind `io.close()` until io tasks process shutdown
+    closed: Cell<bool>,
     cap: Cell<usize>,
     queues: RefCell<MqttSharedQueues>,
     inflight_idx: Cell<u16>,
@@ -98,6 +100,7 @@ impl MqttShared {
     ) -> Self {
         Self {
             io,
+            closed: Cell::new(false),
             codec,
             pool,
             cap: Cell::new(0),
@@ -126,11 +129,13 @@ impl MqttShared {
             let _ = self.encode_packet(codec::Packet::Disconnect);
         }
         self.io.close();
+        self.closed.set(true);
         self.clear_queues();
     }
 
     pub(super) fn force_close(&self) {
         self.io.terminate();
+        self.closed.set(true);
         self.clear_queues();
     }
 
@@ -154,6 +159,11 @@ impl MqttShared {
     }
 
     pub(super) fn is_closed(&self) -> bool {
+        self.closed.get() || self.io.is_closed()
+    }
+
+    /// Io stream is closed (inbound side, does not depend on the state of the sink)
+    pub(super) fn is_io_closed(&self) -> bool {
         self.io.is_closed()
     }
 
